@@ -1,4 +1,4 @@
-//go:build verif
+//go:build verif && (p_all || p_shadow || p_c06 || p_c12)
 
 package props
 
@@ -44,8 +44,9 @@ func init() {
 
 	// C06 and C12 add the shadow pass to their thorough tier.
 	for _, id := range []string{"C06", "C12"} {
-		p := Registry[id]
-		p.Parent = shadowParent
+		if p := Registry[id]; p != nil {
+			p.Parent = shadowParent
+		}
 	}
 }
 
